@@ -100,7 +100,9 @@ SpaceOK(a, b) == a = b \/ a = "NonSpatial" \/ b = "NonSpatial"
 
 \* ---------------------------------------------------------------- actions
 \* lhs <op> rhs, out of place (result -> Z) or in place; rhs is an object name or an operand kind
-Bin(op, n, kind, m, inplace) ==
+\* dst: the name the user binds an out-of-place result to (Z = X + Y, but also Y = X + Y: the old object of that name is dropped
+\* unless another name still refers to it).  Results of different calls are different buffers whatever they are bound to.
+BinD(op, n, kind, m, inplace, dst) ==
     /\ steps < MaxSteps /\ Exists(n) /\ (kind = "ma" => Exists(m))
     /\ LET b  == IF kind = "ma" THEN Data(m) ELSE <<>>
            ok == kind # "ma" \/ SpaceOK(obj[n].space, obj[m].space)
@@ -114,12 +116,13 @@ Bin(op, n, kind, m, inplace) ==
                        /\ IF inplace
                           THEN Commit([heap EXCEPT ![obj[n].buf] = d], obj)
                           ELSE Commit([heap EXCEPT ![FreshBuf] = d],
-                                      [obj EXCEPT !["Z"] = [buf |-> FreshBuf, space |-> obj[n].space]])
+                                      [obj EXCEPT ![dst] = [buf |-> FreshBuf, space |-> obj[n].space]])
                 /\ last' = [act |-> "Bin", op |-> op, lhs |-> n, kind |-> kind, rhs |-> m, inplace |-> inplace,
-                            raises |-> ""]
+                            raises |-> "", dst |-> dst]
+Bin(op, n, kind, m, inplace) == BinD(op, n, kind, m, inplace, "Z")
 
 \* dot / @ : the in-place form REBINDS the left operand to a fresh buffer
-DotAct(n, m, inplace, viaOperator) ==
+DotD(n, m, inplace, viaOperator, dst) ==
     /\ steps < MaxSteps /\ Exists(n) /\ Exists(m)
     /\ IF ~SpaceOK(obj[n].space, obj[m].space)
        THEN /\ UNCHANGED <<heap, obj>> /\ steps' = steps + 1
@@ -128,24 +131,27 @@ DotAct(n, m, inplace, viaOperator) ==
        ELSE /\ LET d == Dot(Data(n), Data(m))
                IN  /\ Small(d)
                    /\ Commit([heap EXCEPT ![FreshBuf] = d],
-                             [obj EXCEPT ![IF inplace THEN n ELSE "Z"] = [buf |-> FreshBuf, space |-> obj[n].space]])
+                             [obj EXCEPT ![IF inplace THEN n ELSE dst] = [buf |-> FreshBuf, space |-> obj[n].space]])
             /\ last' = [act |-> "Dot", lhs |-> n, rhs |-> m, inplace |-> inplace, operator |-> viaOperator,
-                        raises |-> ""]
+                        raises |-> "", dst |-> dst]
+DotAct(n, m, inplace, viaOperator) == DotD(n, m, inplace, viaOperator, "Z")
 
-InvertAct(n, inplace) ==
+InvertD(n, inplace, dst) ==
     /\ steps < MaxSteps /\ Exists(n) /\ Invertible(Data(n))
     /\ LET d == Inv(Data(n))
        IN  /\ Small(d)
            /\ Commit([heap EXCEPT ![FreshBuf] = d],
-                     [obj EXCEPT ![IF inplace THEN n ELSE "Z"] = [buf |-> FreshBuf, space |-> obj[n].space]])
-           /\ last' = [act |-> "Invert", lhs |-> n, inplace |-> inplace, raises |-> "",
+                     [obj EXCEPT ![IF inplace THEN n ELSE dst] = [buf |-> FreshBuf, space |-> obj[n].space]])
+           /\ last' = [act |-> "Invert", lhs |-> n, inplace |-> inplace, raises |-> "", dst |-> dst,
                        product |-> Dot(Data(n), d)]        \* A . A^-1, must be the identity
+InvertAct(n, inplace) == InvertD(n, inplace, "Z")
 
-GetCopy(n) ==
+GetCopyD(n, dst) ==
     /\ steps < MaxSteps /\ Exists(n)
     /\ Commit([heap EXCEPT ![FreshBuf] = Data(n)],
-              [obj EXCEPT !["Z"] = [buf |-> FreshBuf, space |-> obj[n].space]])
-    /\ last' = [act |-> "GetCopy", lhs |-> n, raises |-> ""]
+              [obj EXCEPT ![dst] = [buf |-> FreshBuf, space |-> obj[n].space]])
+    /\ last' = [act |-> "GetCopy", lhs |-> n, raises |-> "", dst |-> dst]
+GetCopy(n) == GetCopyD(n, "Z")
 
 \* Z = MatrixArray(data = n.data): the constructor keeps the caller's array (documented sharing)
 Wrap(n) ==
@@ -256,6 +262,13 @@ AccessNext ==
     \/ \E n \in Names : Wrap(n) \/ GetCopy(n)
     \/ \E op \in {"add", "mul"} : Bin(op, "X", "ma", "Y", TRUE)
 
+\* results kept under different names: two (three) out-of-place results of the same left operand alive at once
+\* (Z = X.dot(Y); Y = X.dot(Z); ...) - each is a buffer of its own and none of them changes when the next is computed
+DstNext ==
+    \/ \E m \in Names, o \in BOOLEAN, dst \in {"Y", "Z"} : DotD("X", m, FALSE, o, dst)
+    \/ \E op \in {"add", "mul"}, m \in Names, dst \in {"Y", "Z"} : BinD(op, "X", "ma", m, FALSE, dst)
+    \/ \E dst \in {"Y", "Z"} : InvertD("X", FALSE, dst) \/ GetCopyD("X", dst)
+
 \* the further operand kinds, one operation deep
 KindNext == \E op \in Ops, n \in Names, k \in MoreKinds, ip \in BOOLEAN : Bin(op, n, k, "-", ip)
 
@@ -295,8 +308,9 @@ SetMatrixLocal ==
 NoAliasOutOfPlace ==
     [][(last'.act \in {"Bin", "Dot", "Invert", "GetCopy"} /\ last'.raises = "" /\
         (last'.act = "GetCopy" \/ ~last'.inplace))
-       => /\ \A n \in {"X", "Y"} : obj'[n] = obj[n] /\ heap'[obj'[n].buf] = heap[obj[n].buf]
-          /\ \A n \in {"X", "Y"} : obj'["Z"].buf # obj'[n].buf]_<<vars, last>>
+       => /\ \A n \in Names \ {last'.dst} :           \* every other name keeps its object: same space, same contents
+                 Exists(n) => (Exists(n)' /\ obj'[n].space = obj[n].space /\ heap'[obj'[n].buf] = heap[obj[n].buf])
+          /\ \A n \in Names \ {last'.dst} : obj'[last'.dst].buf # obj'[n].buf]_<<vars, last>>
 
 InPlaceTouchesOnlyLhs ==
     [][(last'.act = "Bin" /\ last'.raises = "" /\ last'.inplace)
